@@ -198,21 +198,19 @@ Lemma jclassify_event A ev raw v errs rerrs dl :
   /\ parse (print v) = Some v
   /\ (json_depth v <= MAX_PAYLOAD_NESTING)%nat
   /\ dl = text_delta v
-  /\ errs = fst (a_validate A v) ++ name_mismatch ev v
-  /\ rerrs = snd (a_validate A v).
+  /\ errs = a_vstream A (validation_data A v) ++ name_mismatch ev v
+  /\ rerrs = response_errors A v.
 Proof.
   intros HA H. unfold jclassify, parse_value_of in H.
   destruct (parse raw) as [j|] eqn:Ep; [|discriminate].
   destruct (canon A j) as [v0|] eqn:Ec; [|discriminate].
   destruct (MAX_PAYLOAD_NESTING <? json_depth v0)%nat eqn:Ed; [discriminate|].
-  destruct (a_validate A v0) as [ve re] eqn:Ev. injection H as <- <- <- <-.
+  injection H as <- <- <- <-.
   pose proof (depth_check_false _ Ed) as D.
   repeat split.
   - exists j. split; [reflexivity|exact Ec].
   - apply parse_print_nums; [|exact D]. eapply canon_nums_ok; [exact HA| |exact Ec]. eapply parse_nums_ok. exact Ep.
   - apply Nat.ltb_ge in Ed. exact Ed.
-  - rewrite Ev. reflexivity.
-  - rewrite Ev. reflexivity.
 Qed.
 
 (* a payload kept as text: not JSON for serde_json (does not parse / a number out of range), or nested too deep *)
@@ -224,7 +222,7 @@ Proof.
   unfold jclassify. intros H. destruct (parse_value_of A raw) as [v|].
   - destruct (MAX_PAYLOAD_NESTING <? json_depth v)%nat eqn:Ed.
     + right. exists v. injection H as <-. apply Nat.ltb_lt in Ed. auto.
-    + destruct (a_validate A v). discriminate.
+    + discriminate.
   - left. injection H as <-. auto.
 Qed.
 
@@ -232,7 +230,7 @@ Lemma jclassify_delta A ev raw v errs rerrs dl : jclassify A ev raw = CEvent v e
 Proof.
   unfold jclassify. destruct (parse_value_of A raw) as [v0|]; [|discriminate].
   destruct (MAX_PAYLOAD_NESTING <? json_depth v0)%nat; [discriminate|].
-  destruct (a_validate A v0). intros H. injection H as <- _ _ <-. reflexivity.
+  intros H. injection H as <- _ _ <-. reflexivity.
 Qed.
 
 (* the text delta of a value: the `delta` string member of an object whose `type` member is the string
@@ -481,9 +479,11 @@ Qed.
 
 (* ================= non-vacuity: a concrete stream through the instantiated classification ================= *)
 Definition demoA : absfns :=
-  {| a_json_err := fun _ => [107; 101; 121; 32; 109; 117; 115; 116; 32; 98; 101; 32; 97; 32; 115; 116; 114; 105; 110; 103; 32; 97; 116; 32; 108; 105; 110; 101; 32; 49; 32; 99; 111; 108; 117; 109; 110; 32; 50];
+  {| a_compat := true;
+     a_json_err := fun _ => [107; 101; 121; 32; 109; 117; 115; 116; 32; 98; 101; 32; 97; 32; 115; 116; 114; 105; 110; 103; 32; 97; 116; 32; 108; 105; 110; 101; 32; 49; 32; 99; 111; 108; 117; 109; 110; 32; 50];
      a_fmt_float := fun t => if lN_eqb t [49; 46; 53; 48] || lN_eqb t [49; 46; 53] then Some [49; 46; 53] else None;
-     a_validate := fun _ => ([], []) |}.
+     a_vstream := fun _ => [];
+     a_vresp := fun _ => [] |}.
 
 Lemma demoA_fmt_ok : fmt_ok demoA.
 Proof.
